@@ -15,7 +15,7 @@ from pv.core import Ob, DISCHARGED, REFUTED, UNDECIDED
 from pv.evalx import Evaluator, from_py, lit_of
 from pv.source import BindingError
 from pv.state import State, ARR_II, ARR_IS
-from pv.values import (V, VInt, VBool, VStr, VNONE, VNoneT, VTuple, VRef, VList, VOpt, VPy, VFn, VAny,
+from pv.values import (VMap, V, VInt, VBool, VStr, VNONE, VNoneT, VTuple, VRef, VList, VOpt, VPy, VFn, VAny,
                        OutOfSubset, fresh, fresh_name, kind_of, I, B, S)
 
 MAX_PATHS = 4000
@@ -179,6 +179,9 @@ class Engine:
             return VList(st.rd(attr, ref), kind[5:])
         if kind.startswith('opt:'):
             return VOpt(st.rd(attr + '.isnone', ref, B), self.read_field(st, ref, attr, kind[4:]))
+        if kind.startswith('map:'):
+            kk, vk = kind[4:].split(':', 1)
+            return VMap(st.rd(attr, ref), kk, vk)
         if kind == 'any':
             return VAny(st.rd(attr, ref))
         raise OutOfSubset('field kind %r' % kind)
@@ -212,7 +215,7 @@ class Engine:
             else:
                 st.wr(attr + '.isnone', ref, z3.BoolVal(False), B)
                 self.write_field(st, ref, attr, kind[4:], v)
-        elif kind == 'any':
+        elif kind == 'any' or kind.startswith('map:'):
             st.wr(attr, ref, self.as_ref(v))
         else:
             raise OutOfSubset('field kind %r' % kind)
@@ -225,7 +228,7 @@ class Engine:
         raise OutOfSubset('expected int, got %s' % kind_of(v))
 
     def as_ref(self, v):
-        if isinstance(v, (VRef, VList, VAny)):
+        if isinstance(v, (VRef, VList, VAny, VMap)):
             return v.t
         if isinstance(v, VNoneT):
             return z3.IntVal(0)
@@ -264,7 +267,7 @@ class Engine:
             except AttributeError:
                 raise OutOfSubset('attribute %s of constant %r' % (attr, recv.obj))
             return self.live_value(o, attr)
-        if isinstance(recv, (VStr, VList)):
+        if isinstance(recv, (VStr, VList, VMap)):
             return VFn('lmethod', recv=recv, name=attr)
         if isinstance(recv, VNoneT):
             st.may_raise(z3.BoolVal(True), 'AttributeError', 'None.%s' % attr)
@@ -330,6 +333,10 @@ class Engine:
                 return self.live_value(recv.obj[lit_of(idx)])
             except KeyError:
                 raise OutOfSubset('constant sequence with symbolic index')
+        if isinstance(recv, VMap):
+            key = self.map_key(recv, idx)
+            st.may_raise(z3.Not(st.mhas(recv.t, key, recv.kk)), 'KeyError', 'dict lookup')
+            return self.map_value(st, recv, key)
         if isinstance(recv, VRef):
             c = classes.get(recv.cls) if recv.cls else None
             if c is not None and hasattr(c, '_fields'):
@@ -486,6 +493,46 @@ class Engine:
         raise OutOfSubset('list comprehension')
 
     # ------------------------------------------------------------------ maps (dict objects in the heap)
+    def map_key(self, m, k):
+        if m.kk == 'str':
+            if not isinstance(k, VStr):
+                raise OutOfSubset('non-str key for a str-keyed dict')
+            return k.t
+        return self.as_ref(k) if not isinstance(k, (VInt, VBool)) else self.as_int(k)
+
+    def map_value(self, st, m, key):
+        t = st.mval(m.t, key, m.kk)
+        vk = m.vk
+        if vk == 'int':
+            return VInt(t)
+        if vk.startswith('ref'):
+            return VRef(t, vk[4:] or None)
+        if vk.startswith('map:'):
+            kk, v2 = vk[4:].split(':', 1)
+            return VMap(t, kk, v2)
+        if vk.startswith('list:'):
+            return VList(t, vk[5:])
+        if vk == 'any':
+            return VAny(t)
+        raise OutOfSubset('dict value kind %r' % vk)
+
+    def map_method(self, st, m, name, args):
+        if name == 'get':
+            key = self.map_key(m, args[0])
+            has = st.mhas(m.t, key, m.kk)
+            v = self.map_value(st, m, key)
+            d = args[1] if len(args) > 1 else VNONE
+            return self.ev.ite(st, has, v, d if not isinstance(d, VNoneT) or not isinstance(v, VInt) else d)
+        if name == 'setdefault':
+            key = self.map_key(m, args[0])
+            has = st.mhas(m.t, key, m.kk)
+            cur = st.mval(m.t, key, m.kk)
+            new = self.as_ref(args[1]) if not isinstance(args[1], VInt) else args[1].t
+            val = z3.If(has, cur, new)
+            st.mput(m.t, key, val, m.kk)
+            return self.map_value(st, m, key)
+        raise OutOfSubset('dict.%s' % name)
+
     def map_contains(self, st, m, k):
         raise OutOfSubset('membership in object of class %s' % m.cls)
 
